@@ -55,7 +55,7 @@ def run(ctx):
     ncorpus = len(sx)
     hist = {}
     for _ in range(nprog):
-        g = progs.Gen(rng.fork(), feat=dict(strs=True, trybias=True, refs=False))
+        g = progs.Gen(rng.fork(), feat=dict(strs=True, trybias=True, refs=False, exctypes=True))
         sx.append(g.program(rng.range(2, 5)))
         for k, v in g.hist.items():
             hist[k] = hist.get(k, 0) + v
